@@ -126,6 +126,7 @@ func (cls *CachedLocations) expire(ctx *Context, sys *System, name string, relea
 // TTL can be 'Never', 'Forever', or anything in between.
 func (cls *CachedLocations) Open(ctx *Context, sys *System, name string, check bool) (*Location, error) {
 	Log(INFO, ctx, "CachedLocations.Open", "name", name)
+	VerifYield("CachedLocations.Open.lock")
 	cls.Lock()
 
 	loc, dead := cls.expire(ctx, sys, name, false)
@@ -162,10 +163,12 @@ func (cls *CachedLocations) Open(ctx *Context, sys *System, name string, check b
 		// can take a long time.  We'd like to be able to open
 		// locations concurrently.
 		cls.Unlock()
+		VerifYield("CachedLocations.Open.unlocked")
 		return cl.get(ctx, sys, name, check, true)
 	}
 
 	cls.Unlock()
+	VerifYield("CachedLocations.Open.unlocked")
 
 	if check {
 		// The location might have been cached by a request that
@@ -188,6 +191,7 @@ func (cls *CachedLocations) Open(ctx *Context, sys *System, name string, check b
 func (cls *CachedLocations) Release(ctx *Context, sys *System, name string) error {
 	Log(INFO, ctx, "CachedLocations.Release", "name", name)
 	var err error
+	VerifYield("CachedLocations.Release.lock")
 	cls.Lock()
 	loc, dead := cls.expire(ctx, sys, name, true)
 	if dead {
